@@ -66,7 +66,7 @@ struct Interp {
   std::set<std::string> calleesSeen; // non-inlined Fastor callees entered
   std::vector<std::string> abnormal;  // guards of abnormal terminations (throw / abort / unreachable)
   bool abnormalUnconditional = false;
-  long merges = 0, symbolicBranches = 0, masked = 0, layoutAssumed = 0;
+  long merges = 0, symbolicBranches = 0, masked = 0, layoutAssumed = 0, symbolicIndexGeps = 0;
   std::map<const llvm::GlobalVariable *, int> gmap;
   std::string repoPrefix = "/repo/";
 
@@ -87,6 +87,12 @@ struct Interp {
   AV load(const AV &p, int n, bool fp, int align, int src);
   AV peek(int region, int64_t off, int n, bool fp); // load without monitoring
   void store(const AV &p, const AV &v, int n, int align, int src);
+  AV ptrAdd(const AV &p, int64_t off);   // pointer arithmetic through pointer selects
+  AV liftIndex(const AV &idx, const std::function<AV(int64_t)> &f, int &budget, std::map<int, bool> *assume = nullptr); // map f over the constant leaves of a select tree of integers
+  bool isChoiceTree(int t, int &budget, bool &hasSelect);
+  AV liftPtr(const AV &p, const std::function<AV(const AV &)> &f, int &budget, std::map<int, bool> *assume);
+  AV simplifyChoice(const AV &v, bool isBool); // an integer computed from finite choices of constants is itself a finite choice: re-express it as one
+  bool isPtrSel(const AV &p) const { return p.k == AV::T && TT.t[p.t].op == TT.OP_SELECT && p.bytes == 8; }
 
   // values
   AV constScalar(const llvm::Constant *C);
